@@ -1439,7 +1439,8 @@ def coverage_families():
     tb = {'k': 'table', 'ch': {'B': [[C(0), C(1), 'hold'], [C(1), V('a'), 'linear'], [C(2), C(3), 'linear']]}}
     cA = {'k': 'const', 'd': C(2), 'vals': {'A': V('a')}}
     cA1 = {'k': 'const', 'd': C(2), 'vals': {'A': C(F(1, 2))}}
-    point = {'k': 'point', 'cs': ['A', 'B'], 'ents': [[C(0), {'vec': [C(1), C(2)]}, 'hold'], [C(2), {'vec': [C(3), V('a')]}, 'linear']]}
+    point = {'k': 'point', 'cs': ['A', 'B'], 'ents': [[C(0), {'vec': [C(1), C(2)]}, 'hold'], [C(1), {'s': C(2)}, 'linear'],
+                                                      [C(2), {'vec': [C(3), V('a')]}, 'linear']]}
     multi = {'k': 'multi', 'ps': [tb, cA]}
     aatom = {'k': 'aatom', 'l': cA, 'op': '-', 'r': cA1}
     mapped = {'k': 'map', 'b': tb, 'pm': {'a': add(V('a'), C(1))}, 'cm': [['B', 'A']]}
